@@ -16,6 +16,8 @@ KINDS = [
     ("box", "(box {x})", "(unbox {o})", "(set-box! {o} {x})"),
     ("mvec", "(vector {x} 0)", "(vector-ref {o} 0)", "(vector-set! {o} 0 {x})"),
     ("struct", "(Cell {x})", "(Cell-v {o})", "(set-Cell-v! {o} {x})"),
+    # an EMPTY mutable vector (kept alive next to the sentinel): nothing inside it has to be marked, but the vector itself has to be
+    ("empty-mvec", "(vector (vector) {x})", "(+ (vector-length (vector-ref {o} 0)) (vector-ref {o} 1))", "(vector-set! {o} 1 {x})"),
     ("nested", "(box (vector (Cell {x})))", "(Cell-v (vector-ref (unbox {o}) 0))", "(set-Cell-v! (vector-ref (unbox {o}) 0) {x})"),
 ]
 
